@@ -13,7 +13,7 @@ BUDGET_S = {'quick': 80, 'thorough': 180}
 PER_BATCH = {'quick': 300, 'thorough': 5000}
 FLOORS = {
     'quick': {'distinct_nontrivial': 1500, 'fork-trees': 1200, 'handles-finished': 8000, 'results-rechecked-after-later-operations': 40000,
-              'accepts-observations': 8000, 'accepts==reference': 3000, 'resume-cases': 1500, 'on_error-cases': 800,
+              'accepts-observations': 8000, 'accepts==reference': 3000, 'resume-cases': 1500, 'resume-on-forks': 3000, 'on_error-cases': 800,
               'feature:fork:copy': 2000, 'feature:fork:as_immutable': 2000, 'feature:fork:immutable-feed': 4000, 'feature:fork:as_mutable': 800,
               'feature:fork:copy.copy': 500, 'feature:diverging-forks-share-reduced-subtree': 1500, 'feature:embedded-transformer': 300,
               'feature:inlined-left-recursion': 300, 'feature:placeholders': 300, 'feature:error-in-branch': 500},
@@ -329,10 +329,22 @@ def run_resume(ctx, l, lb, texts, alphabet, rng, feats, case0, expcache):
         for t in plan[:k]:
             pre_ip.feed_token(t)
         same_state = list(pre_ip.parser_state.state_stack) == list(ip.parser_state.state_stack)
-        try:
-            got = ['ok', canon_tree(ip.resume_parse(), True, True)]
-        except Exception as e2:
-            got = ['exc', strip_interactive(canon_exc(e2))]
+        # forks of the error state resume independently: each reads its own copy of the rest of the input, in any order
+        handles = {'original': ip, 'copy()': ip.copy(), 'as_immutable()': ip.as_immutable()}
+        order = rng.sample(sorted(handles), 3)
+        res = {}
+        for name in order:
+            try:
+                res[name] = ['ok', canon_tree(handles[name].resume_parse(), True, True)]
+            except Exception as e2:
+                res[name] = ['exc', strip_interactive(canon_exc(e2))]
+        got = res['original']
+        ctx.count('resume-on-forks', 2)
+        for name in order:
+            if res[name] != got:
+                ctx.judged([case0['grammar_text'], case0['opts'], 'resume-forks', text], True, feats + ['resume'])
+                ctx.violation('resume_parse-on-forks-of-one-error-state-disagree', case, {'order': order, 'results': res})
+                return
     ctx.count('resume-cases')
     ctx.judged([case0['grammar_text'], case0['opts'], 'resume', text], True, feats + ['resume'])
     if got != manual and case0['opts']['lexer'] != 'basic' and got[0] == manual[0] == 'exc':
